@@ -3,7 +3,7 @@ from common import *  # noqa: F401,F403
 
 RULE = ("random curves: Bezier, multi-span, repeated interior knots up to multiplicity degree+1, degree 0, polynomial and rational, scalar and "
         "vector points, exact rational data.  Non-trivial: degree >= 2 or an interior knot; distinct = distinct curves."
-        " Also: integer knot vectors handed over as python ints, rational Bezier curves of degree 3..5. Also: curves stored with more degrees / knots than needed (reducible Bezier curves, elevated or refined curves): the argument must keep its representation.")
+        " Also: integer knot vectors handed over as python ints, rational Bezier curves of degree 3..5. Also: curves stored with more degrees / knots than needed (reducible Bezier curves, elevated or refined curves): the argument must keep its representation; nearly reducible curves (a line plus a steep feature of height 1e-4 on a span of width 1e-3).")
 EXPLANATION = ("L3: for exact results `rf.map deriv` decides D = dC/du on every span from the polynomial coefficients (quotient rule, cross-multiplied); "
                "where the library computes in float64 (spline difference matrix, D18) the values D(u) are compared with the exact derivative at "
                "2*deg+3 interior points of every span of D to relative 1e-9.  L2: polynomial derivatives vs the model's control points.")
@@ -91,13 +91,40 @@ def run(ctx):
         else:
             U, P, W = rand_curve(rng, pmax=2, nintmax=1, weights=rng.choice(["none", "none", "pos"]))
             cv = make_curve(U, P, W)
-            if rng.random() < 0.6:
+            node = U[0] + (U[-1] - U[0]) * rng.choice(GRID)
+            if rng.random() < 0.6 or list(U).count(node) > kv_info(U)[0]:
                 cv.degree_increase(1)
             else:
-                cv.knot_insert([U[0] + (U[-1] - U[0]) * rng.choice(GRID)])
+                cv.knot_insert([node])
             st = curve_state(cv)
             run_case(ctx, ser(dict(kind="deriv", U=list(st[0]), P=[tuple(q) for q in st[1]], W=None if st[2] is None else list(st[2]))))
         ctx["rec"].count("family", "reducible")
+    for i in range(budget(ctx, 12, 100)):
+        # *nearly* reducible curves: a straight line stored with more degree / knots than it needs, plus a small steep feature (a
+        # control point moved by a few 1e-4 on a span of width 1e-3): within the cleaning tolerance of a simpler curve in L2, but the
+        # derivative of the feature is of order one — the derivative must be that of the curve given, not of a simplification
+        dim = rng.choice([1, 2])
+        q0 = tuple(F(rng.randint(-4, 4), 2) for _ in range(dim))
+        q1 = tuple(F(rng.randint(-4, 4), 2) for _ in range(dim))
+        delta = rng.choice([F(1, 4000), F(3, 10000), F(1, 2500), F(-3, 10000)])
+        if i % 2 == 0:
+            pb = rng.choice([2, 3])
+            a = F(rng.randint(-2, 2), 2)
+            hh = rng.choice([F(1, 1000), F(1, 500), F(1, 2000)])
+            U = [a] * (pb + 1) + [a + hh] * (pb + 1)
+            P = [tuple(x + (y - x) * F(j, pb) * hh for x, y in zip(q0, q1)) for j in range(pb + 1)]
+        else:
+            pb = rng.choice([2, 3])
+            c0 = rng.choice([F(1, 4), F(1, 2), F(3, 5)])
+            ks = [c0 + F(j, 1000) for j in range(pb + 1)]
+            U = [F(0)] * (pb + 1) + ks + [F(1)] * (pb + 1)
+            n = len(U) - pb - 1
+            grev = [sum(U[j + 1:j + pb + 1], F(0)) / pb for j in range(n)]
+            P = [tuple(x + (y - x) * g for x, y in zip(q0, q1)) for g in grev]
+        j = rng.randrange(1, len(P) - 1) if i % 2 == 0 else rng.randrange(pb, len(P) - pb)
+        P[j] = tuple(x + delta for x in P[j])
+        run_case(ctx, ser(dict(kind="deriv", U=U, P=P, W=None)))
+        ctx["rec"].count("family", "nearly-reducible")
     for i in range(budget(ctx, 8, 60)):
         # rational Bezier curves of higher degree (their derivative goes through the Bezier product of degree 2p)
         pb = 3 + i % 3
